@@ -310,14 +310,33 @@ theorem json_error_sticky (cfg : JCfg) (s : JState) (h : s.err.isSome) (cs : Lis
     runChunks (jFeed cfg) s cs = (s, []) := by
   rw [json_chunking_independent_state]; exact json_err_absorb cfg s h _
 
-/-- **Refinement of the bulk scans (JSON), partial.**  The four places where
-`TapeDecoder::decode` handles a *run* of bytes at once are equal to stepping through the run:
-`skip_chrs`/`memchr2` inside a string, `advance_until` inside a number, whitespace (and comma)
-skipping, and the `zip` over the rest of a literal.
-Gap: the assembly of these scans into the full `decode` loop is not a Lean function here —
-`jFeed` *is* the byte-at-a-time reading; its agreement with the real bulk loop is checked by the
-correspondence run (tape contents, row counts and error class for every chunking tried). -/
-theorem json_scan_refinement_partial (cfg : JCfg) (s : JState) (rest : List JSt) (run : Bytes)
+/-- **Refinement (JSON), full loop.** `TapeDecoder::decode` as written — every round of
+`while !iter.is_empty()` first scans a run of bytes in bulk (`skip_chrs`/`memchr2` in `String`,
+`advance_until` in `Number`, whitespace / comma skipping in the value, colon, object, list and
+top-level arms) and then handles the byte that stopped the scan; `flush` when a new row would
+exceed the batch size — equals the byte-at-a-time machine `jStep`, for every state and chunk. -/
+theorem json_refinement (cfg : JCfg) (s : JState) (chunk : Bytes) :
+    jFeedBulk cfg s chunk = runBytes (jStep cfg) s chunk :=
+  jFeedBulk_eq_runBytes cfg s chunk
+
+/-- **Chunking independence (JSON), for the bulk loop.** -/
+theorem json_bulk_chunking_independent (cfg : JCfg) (cs : List Bytes) (xs : Bytes) (hp : IsPartition cs xs) :
+    observe (jFinish cfg) (runChunks (jFeedBulk cfg) jInit cs) = observe (jFinish cfg) (jFeedBulk cfg jInit xs) := by
+  rw [chunking_independent (jStep cfg) (jFeedBulk cfg) (json_refinement cfg) _ cs xs hp]
+
+/-- the bulk loop never emits a batch above the batch size either -/
+theorem json_bulk_batch_size_bound (cfg : JCfg) (hb : 1 ≤ cfg.batchSize) (cs : List Bytes) :
+    (∀ t ∈ (runChunks (jFeedBulk cfg) jInit cs).2, t.curRow ≤ cfg.batchSize) ∧
+    (∀ t ∈ (jFinish cfg (runChunks (jFeedBulk cfg) jInit cs).1).1, t.curRow ≤ cfg.batchSize) := by
+  have e : runChunks (jFeedBulk cfg) jInit cs = runChunks (jFeed cfg) jInit cs := by
+    rw [chunking_independent (jStep cfg) (jFeedBulk cfg) (json_refinement cfg) _ cs _ rfl,
+        json_chunking_independent_state, json_refinement]; rfl
+  rw [e]; exact json_batch_size_bound cfg hb cs
+
+/-- The individual bulk scans equal stepping through the scanned run (the lemmas behind
+`json_refinement`): `skip_chrs`/`memchr2` inside a string, `advance_until` inside a number,
+whitespace (and comma) skipping, and the `zip` over the rest of a literal. -/
+theorem json_scan_refinement (cfg : JCfg) (s : JState) (rest : List JSt) (run : Bytes)
     (he : s.err = none) :
     (s.stack = .string :: rest → (∀ b ∈ run, b ≠ 92 ∧ b ≠ 34) →
       runBytes (jStep cfg) s run = ({ s with tape := s.tape.pushBytes run }, [])) ∧
@@ -384,7 +403,8 @@ theorem csv_bom_chunk_dependent :
     observe (csvFinish cfg) (runChunks (csvFeed cfg) (csvInit 0) [[0xEF], [0xBB, 0xBF, 97, 10]]) =
         ([], [[[[0xEF, 0xBB, 0xBF, 97]]]], false) := by
   constructor <;> simp [observe, runChunks, csvFeed, bulkLoop, csvIter, csvInit, csvBom, csvStep, csvStartRecord,
-    csvStartField, csvEndRecord, csvFlush, csvFinish, isTerm, csvPlain, termState, rowsValid, utf8Valid, utf8One]
+    csvStartField, csvEndRecord, csvFlush, csvFinish, isTerm, csvPlain, termState, rowsValid, utf8Valid, utf8One,
+    charBoundary]
 
 /-- Errors are sticky (CSV): after a field-count or UTF-8 error nothing more is emitted. -/
 theorem csv_error_sticky (cfg : CsvCfg) (s : CsvState) (h : s.err = true) (cs : List Bytes) :
